@@ -54,9 +54,7 @@ def mk_type(t):
         elif k == 'list':
             out = List[mk_type(t[1]), int(t[2])]
         elif k == 'cont':
-            _cont_counter[0] += 1
-            ann = {'f%d' % i: mk_type(ft) for i, ft in enumerate(t[1:])}
-            out = type('C%d' % _cont_counter[0], (Container,), {'__annotations__': ann})
+            out = mk_container(t, key)
         elif k == 'union':
             opts = [None if o == 'none' else mk_type(o) for o in t[1:]]
             out = Union[tuple(opts)]
@@ -64,6 +62,38 @@ def mk_type(t):
             raise ValueError(key)
     _type_cache[key] = out
     return out
+
+
+def mk_container(t, key):
+    """A container class with fields f0..fn.  For about half of the multi-field types the class is
+    built by INHERITANCE (a base container with the first fields, possibly declaring one field with
+    another type that the derived class re-declares), and the base class is exercised first
+    (sizes, default value, encoding, iteration, export), as client code with a class hierarchy would."""
+    import hashlib as _h
+    _cont_counter[0] += 1
+    n = len(t) - 1
+    names = ['f%d' % i for i in range(n)]
+    types = [mk_type(ft) for ft in t[1:]]
+    hv = int(_h.sha1(key.encode()).hexdigest(), 16)
+    if n >= 2 and hv % 2 == 0:
+        cut = 1 + (hv >> 3) % (n - 1)
+        base_ann = {names[i]: types[i] for i in range(cut)}
+        derived_ann = {names[i]: types[i] for i in range(cut, n)}
+        if (hv >> 9) % 3 == 0:
+            # the base declares f0 with another type; the derived class re-declares it (same position)
+            base_ann[names[0]] = uint8 if types[0] is not uint8 else uint16
+            derived_ann = dict([(names[0], types[0])] + list(derived_ann.items()))
+        Base = type('B%d' % _cont_counter[0], (Container,), {'__annotations__': base_ann})
+        for f in (lambda: Base.is_fixed_byte_length(), lambda: Base.min_byte_length(), lambda: Base.max_byte_length(),
+                  lambda: Base.type_byte_length(), lambda: Base().encode_bytes(), lambda: Base().value_byte_length(),
+                  lambda: list(Base()), lambda: Base().to_obj(), lambda: Base.from_obj(Base().to_obj()),
+                  lambda: Base.decode_bytes(Base().encode_bytes()), lambda: Base().hash_tree_root()):
+            try:
+                f()
+            except Exception:
+                pass
+        return type('C%d' % _cont_counter[0], (Base,), {'__annotations__': derived_ann})
+    return type('C%d' % _cont_counter[0], (Container,), {'__annotations__': dict(zip(names, types))})
 
 
 def kind(t):
